@@ -69,6 +69,14 @@ def run(ctx):
              "use_spec_hashes on -> FileSpecHashes(<project>/.gwf/spec-hashes.json); off or unset -> NoopSpecHashes",
              f"get_spec_hashes selects {{on: {sel.get(True)}, off: {sel.get(False)}, unset: {sel.get(None)}}}; expected the file store under <project>/.gwf only when "
              "use_spec_hashes is set, the no-op store otherwise", gsh.where)
+    reloc = sel.pop("relocated", None)
+    if reloc is not None and reloc[0] is not Ellipsis and reloc[1]:
+        p_ = str(reloc[0])
+        anchored = p_.startswith(tok("WD")) or p_.startswith("/") or p_.startswith("⟦abs:" + tok("WD")) or p_.startswith("⟦norm:" + tok("WD"))
+        r2.check(anchored, f"{gsh.module.relpath}::{gsh.qual}::relocated", f"optional settings {reloc[1]} keep the store anchored in the project directory",
+                 f"with the optional setting(s) {reloc[1]} given as the relative path 'elsewhere/custom.json' the hash file is opened at {p_.replace(tok('WD'), '<project>')!r}: a relative location "
+                 "is resolved against the directory gwf is invoked from, so records written from the project root are invisible from a sub-directory - records do not persist "
+                 "across invocations", gsh.where)
     try:
         defaults = ctx.ev.eval_global("gwf.conf", "CONFIG_DEFAULTS")
         r2.check(defaults.get("use_spec_hashes") is False, "src/gwf/conf.py::CONFIG_DEFAULTS.use_spec_hashes", "default off",
